@@ -173,6 +173,8 @@ def run_impl(case):
 
 
 def model_requests(case, impl):
+    if "harness_exc" in impl:
+        return []
     k = case["kind"]
     if k == "num":
         return [line(ID, "friendly", case["code"], case["n"])]
@@ -203,6 +205,8 @@ def _phrase(out):
 
 
 def spec_requests(case, impl):
+    if "harness_exc" in impl:
+        return []
     if impl.get("exc") or not isinstance(impl["out"], str):
         return []
     if case["kind"] == "num" and case["code"] in ("en", "en_US"):
